@@ -69,6 +69,35 @@ def run(repo, chk):
             chk.ob("R1b", key, ok, msg, loc, detail)
 
     _c12._ack_frame_fits(repo, _Sub)
+    # ... and two obligations of the flow-control properties without which a transfer stalls or is torn down on a
+    # lossy but honest network: every accepted STREAM frame is charged to the connection credit, whether or not it
+    # produced an event (else MAX_DATA is never raised once data arrived behind a hole - C07-R1), and a RESET_STREAM
+    # declares only bytes that were sent (else the peer closes with FLOW_CONTROL_ERROR - C06-R1)
+    from . import c06 as _c06
+    from . import c07 as _c07
+
+    class _Sub7:
+        @staticmethod
+        def ob(rule, key, ok, msg="", loc="", detail=None):
+            if "used += exactly the amount that was checked" in key:
+                chk.ob("R1b", key, ok, msg or "out-of-order data is buffered without being charged: the receiver believes less than half of its window is used and never sends MAX_DATA; the sender stalls until the idle timeout", loc, detail)
+
+        @staticmethod
+        def rule(*a, **k):
+            pass
+
+        @staticmethod
+        def count(*a, **k):
+            pass
+
+    _c07.r1_r2(repo, _Sub7)
+
+    class _Sub6(_Sub7):
+        @staticmethod
+        def ob(rule, key, ok, msg="", loc="", detail=None):
+            chk.ob("R1b", key, ok, msg, loc, detail)
+
+    _c06.r1_reset_final_size(repo, _Sub6)
     r5(repo, chk)
     r2(repo, chk)
     r3(repo, chk)
